@@ -46,10 +46,16 @@ def compile_yaml(y, mode="plain"):
     """mode: plain (Einsum+Mapping) or metrics (all five sections)."""
     Einsum, Mapping, Architecture, Bindings, Format, HiFiber = teaal_modules()
     try:
-        e = Einsum.from_str(y)
-        m = Mapping.from_str(y)
+        # from_str(s) is cls(YamlParser.parse_str(s)); parse once with the
+        # repository's own YAML reader and give every class its own copy
+        import copy
+        from teaal.parse.yaml import YamlParser
+        d = YamlParser.parse_str(y)
+        e = Einsum(copy.deepcopy(d))
+        m = Mapping(copy.deepcopy(d))
         if mode == "metrics":
-            h = HiFiber(e, m, Architecture.from_str(y), Bindings.from_str(y), Format.from_str(y))
+            h = HiFiber(e, m, Architecture(copy.deepcopy(d)), Bindings(copy.deepcopy(d)),
+                        Format(copy.deepcopy(d)))
         else:
             h = HiFiber(e, m)
         return Compiled(h, str(h))
@@ -61,7 +67,7 @@ def compile_yaml(y, mode="plain"):
 class Recorder:
     """Event log with per-kind counters; keeps at most `cap` detailed events."""
 
-    def __init__(self, cap=20000):
+    def __init__(self, cap=120000):
         self.counts = {}
         self.events = []
         self.cap = cap
